@@ -229,6 +229,30 @@ func writeHandMade(dir string) {
 			panic(err)
 		}
 	}
+	// (j) annotation names that differ from a configuration key only by letter case or "_"
+	{
+		objs := svcs("ns1", "svc1", "svc2", "svc3")
+		for _, o := range objs {
+			if svc, ok := o.(*api.Service); ok {
+				svc.Annotations = map[string]string{
+					c06.Prefixes[0] + "timeout-server": "5s", c06.Prefixes[0] + "Timeout-Server": "9s", c06.Prefixes[0] + "TIMEOUT-SERVER": "7s",
+					c06.Prefixes[1] + "maxconn-server": "100", c06.Prefixes[1] + "MaxConn-Server": "200", c06.Prefixes[1] + "maxconn_server": "300",
+				}
+			}
+		}
+		for i, h := range []string{"a.example", "b.example", "sub.a.example"} {
+			ing := world.Ingress("ns1", fmt.Sprintf("ing%d", i+1), 10+i,
+				world.IngRule{Host: h, Paths: []world.IngPath{{Path: "/", Type: "Prefix", Service: fmt.Sprintf("svc%d", i+1), PortNum: 80}}})
+			ing.Annotations = map[string]string{
+				c06.Prefixes[1] + "balance-algorithm": "leastconn", c06.Prefixes[1] + "Balance-Algorithm": "roundrobin", c06.Prefixes[1] + "BALANCE-ALGORITHM": "first",
+				c06.Prefixes[0] + "app-root": "/app", c06.Prefixes[0] + "App-Root": "/api", c06.Prefixes[0] + "APP-ROOT": "/apix",
+				c06.Prefixes[0] + "ssl-redirect": "false", c06.Prefixes[0] + "SSL-Redirect": "true",
+				"Ingress.kubernetes.io/limit-rps": "5", c06.Prefixes[1] + "limit_rps": "10",
+			}
+			objs = append(objs, ing)
+		}
+		write("20-annotation-names-case", "hand made: every ingress and service carries configuration keys twice or three times under names that differ only by letter case (or _ for -) with other values: annotation names are case sensitive, only the exact lower case name is a configuration key", objs)
+	}
 	// (e) one alias requested by four hosts, one of the ingresses also declares the alias as a host
 	{
 		objs := svcs("ns1", "svc1", "svc2", "svc3")
@@ -251,6 +275,9 @@ func writeHandMade(dir string) {
 // runsOf: the cases that need a shuffled List answer to show up get more runs.
 func runsOf(name string) int {
 	if name >= "16" {
+		return 12
+	}
+	if name >= "20" {
 		return 12
 	}
 	return 8
